@@ -8,7 +8,7 @@ import json
 import os
 import random
 
-from . import core, fncases
+from . import core, suite, fncases
 from . import formula as F
 from .values import enc
 
@@ -130,6 +130,9 @@ def main(tier, replay=None):
         fn_cases = rng.sample(fn_cases, 9000)
     fn_cases += [rand_case(rng) for _ in range(4000 if quick else 100000)]
     obs = fncases.observe(lib, fn_cases)
+    so = suite.observations({'LEFT','RIGHT','MID','LEN','UPPER','LOWER','PROPER','TRIM','CLEAN','SUBSTITUTE','CONCATENATE','CONCAT','TEXTJOIN','CHAR','CODE','LEFTB','RIGHTB','MIDB','LENB'}, len(obs) + 1)   # the same functions as the repository's own tests call them
+    run.extra['calls_from_repository_tests'] = len(so)
+    obs += so
     for a, env in identity_cases(rng, 1200 if quick else 30000):
         h = F.Harnessed(lib, env)
         text = F.render(a)
